@@ -1,8 +1,1708 @@
-//! C15 — monitor not built yet.
+//! C15 — provider stream decoding is lossless and chunking-invariant.
+//!
+//! (A) `SseDecoder` + `EventFrameMapper` through their public API: for generated SSE texts S and
+//!     partitions P of S on char boundaries, frames(P) == frames({S}); a small WHATWG-style
+//!     reference parser gives the expected number / order / payload of events; derived output
+//!     text == concatenation of the provider's text deltas; mapper seq 0,1,2,…
+//! (B) end to end: real session runs (`POST /sessions`, `POST /sessions/{id}/input`) against the
+//!     scripted provider, which sends the SAME body bytes under many chunkings over real TCP
+//!     (HTTP chunked encoding, TCP_NODELAY, pauses). The `sse.chunk` hook reports the chunk
+//!     lengths `push_bytes` really received. Oracle: the session's provider_event /
+//!     output_text_delta frames are identical across all chunkings of one body, agree with the
+//!     reference parser, and the session seq continues without gap.
+//! (D) directed end-to-end cases for the two chunking-dependence defects predicted in DESIGN.md
+//!     (F13 invalid-UTF-8 replacement count, F14 bytes after `[DONE]`) — they run on every run.
+
+use crate::fixture::{runtime, App, Store};
+use crate::prng::{fnv, fnv_str, Rng};
+use crate::provider::{ev_completed, ev_created, ev_text_delta, Provider, Recorded, Reply};
 use crate::report::{Cfg, Report};
+use crate::sched::{sched, Sched};
+use crate::truth;
+use rip_provider_openresponses::{EventFrameMapper, SseDecoder, ValidationOptions};
+use ripd::verif_export::{OpenResponsesConfig, ToolChoiceParam};
+use serde_json::{json, Value};
+use std::collections::{BTreeSet, HashMap, HashSet};
+use std::sync::{Arc, Mutex};
+use std::time::{Duration, Instant};
+
+const SIG_F13: &str = "C15/B/invalid_utf8_replacement_count_depends_on_chunking/truncated_multibyte_at_buffer_start";
+const SIG_F14: &str = "C15/B/events_after_done_marker_depend_on_chunking";
+
+const N_DIRECTED: u64 = 2;
+const A_BASE: u64 = 1_000;
+const B_BASE: u64 = 10_000_000;
 
 pub fn run(cfg: &Cfg) -> i32 {
-    let mut r = Report::new("C15", "exploration", "not built");
-    r.fatal_inconclusive("monitor not built yet");
+    let mut r = Report::new(
+        "C15",
+        "exploration",
+        "(A) seeded SSE texts (LF/CRLF/mixed, multi-line data, comments, event names, empty data, invalid JSON, \
+         [DONE], unicode, missing final blank line) x partitions on char boundaries through SseDecoder+EventFrameMapper: \
+         every single split for |S|<=400, all 2-splits for |S|<=60, char-at-a-time, random partitions of long streams; \
+         (B) seeded bodies (same grammar + injected invalid UTF-8) sent by the scripted provider over real TCP under many \
+         chunkings to a real session run; a case is non-trivial when the stream holds >=1 event and the partition has >=2 \
+         chunks ((B): >=2 chunks as observed at the sse.chunk hook); distinct = distinct (stream, set of cut-context \
+         classes, chunk-count bucket) shapes",
+    );
+    r.max_samples = 6;
+    r.assume("SseDecoder takes &str, so (A) partitions are on char boundaries; byte-level splits are exercised only end to end (B)");
+    r.assume("reference parser is WHATWG event-stream parsing restricted to the documented subset (no lone CR inside the stream, no BOM, at most one space after 'data:', no 'data' line without colon); event names are never compared with the reference");
+    r.assume("(B) chunkings are those TCP + hyper really delivered (recorded at the sse.chunk hook), not necessarily the ones the provider wrote");
+
+    // replay: re-run exactly the stored case
+    if let Some(path) = &cfg.replay {
+        let doc: Value = std::fs::read(path)
+            .ok()
+            .and_then(|b| serde_json::from_slice(&b).ok())
+            .unwrap_or(Value::Null);
+        let seed = doc.get("seed").and_then(|x| x.as_u64()).unwrap_or(cfg.seed);
+        let case = doc.pointer("/witness/case").and_then(|x| x.as_u64());
+        let mut c2 = cfg.clone();
+        c2.seed = seed;
+        let Some(case) = case else {
+            r.fatal_inconclusive("replay file has no witness.case");
+            return r.finish(cfg);
+        };
+        if case >= B_BASE || case < N_DIRECTED {
+            let mut e2e = E2e::start();
+            if case < N_DIRECTED {
+                directed_case(&c2, &mut r, &mut e2e, case);
+            } else {
+                b_case(&c2, &mut r, &mut e2e, case);
+            }
+            e2e.finish(&mut r);
+        } else {
+            a_case(&c2, &mut r, case);
+        }
+        return r.finish(cfg);
+    }
+
+    let only_a = cfg.has_flag("--only-a");
+    let only_b = cfg.has_flag("--only-b");
+
+    // (D) + (B) share one provider / runtime
+    let mut e2e = if only_a { None } else { Some(E2e::start()) };
+
+    // (D) directed known-defect reproductions: every run
+    if let Some(e) = e2e.as_mut() {
+        for d in 0..N_DIRECTED {
+            if cfg.mine(d) {
+                directed_case(cfg, &mut r, e, d);
+            }
+        }
+    }
+
+    // (A) pure decoder/mapper: 30 % (quick) / 15 % (thorough) of the budget, the rest goes to (B)
+    if !only_b {
+        let a_deadline = if only_a { cfg.budget_s } else { cfg.budget_s * cfg.tier.pick(0.30, 0.15) };
+        let max_a = cfg.tier.pick(60_000u64, 6_000_000u64);
+        let mut i = 0u64;
+        while i < max_a && r.elapsed() < a_deadline {
+            let idx = A_BASE + i;
+            i += 1;
+            if !cfg.mine(idx) {
+                continue;
+            }
+            a_case(cfg, &mut r, idx);
+        }
+    }
+
+    // (B) end to end
+    if let Some(e) = e2e.as_mut() {
+        let max_b = cfg.tier.pick(6_000u64, 600_000u64);
+        let mut j = 0u64;
+        while j < max_b && !r.over(cfg) {
+            let idx = B_BASE + j;
+            j += 1;
+            if !cfg.mine(idx) {
+                continue;
+            }
+            b_case(cfg, &mut r, e, idx);
+        }
+    }
+    if let Some(e) = e2e.take() {
+        e.finish(&mut r);
+    } else if r.evaluations == 0 {
+        r.fatal_inconclusive("no case evaluated");
+    }
     r.finish(cfg)
+}
+
+// =============================================================================================
+// Reference SSE parser (WHATWG "event stream interpretation", payload only)
+
+/// Payloads (data buffer) of the events a WHATWG parser dispatches for `text`, in order.
+/// Lines end with CRLF, LF or CR; an unterminated last line and an event without its final blank
+/// line are discarded at end of stream.
+fn reference_events(text: &str) -> Vec<String> {
+    let b = text.as_bytes();
+    let mut events = Vec::new();
+    let mut data: Vec<&str> = Vec::new();
+    let mut have_data = false;
+    let mut i = 0usize;
+    while i < b.len() {
+        let Some(rel) = b[i..].iter().position(|c| *c == b'\n' || *c == b'\r') else {
+            break; // unterminated last line: discarded
+        };
+        let j = i + rel;
+        let line = &text[i..j];
+        i = if b[j] == b'\r' && j + 1 < b.len() && b[j + 1] == b'\n' { j + 2 } else { j + 1 };
+        if line.is_empty() {
+            if have_data {
+                events.push(data.join("\n"));
+            }
+            data.clear();
+            have_data = false;
+            continue;
+        }
+        if line.starts_with(':') {
+            continue;
+        }
+        let (field, value) = match line.find(':') {
+            Some(c) => {
+                let v = &line[c + 1..];
+                (&line[..c], v.strip_prefix(' ').unwrap_or(v))
+            }
+            None => (line, ""),
+        };
+        if field == "data" {
+            data.push(value);
+            have_data = true;
+        }
+    }
+    events
+}
+
+/// Concatenation of the text deltas the provider sent (events whose JSON payload has
+/// type == "response.output_text.delta" and a string "delta").
+fn reference_text(events: &[String]) -> String {
+    let mut out = String::new();
+    for e in events {
+        if e == "[DONE]" {
+            continue;
+        }
+        if let Ok(v) = serde_json::from_str::<Value>(e) {
+            if v.get("type").and_then(|t| t.as_str()) == Some("response.output_text.delta") {
+                if let Some(d) = v.as_object().and_then(|o| o.get("delta")).and_then(|d| d.as_str()) {
+                    out.push_str(d);
+                }
+            }
+        }
+    }
+    out
+}
+
+fn expected_status(payload: &str) -> &'static str {
+    if payload == "[DONE]" {
+        "done"
+    } else if serde_json::from_str::<Value>(payload).is_ok() {
+        "event"
+    } else {
+        "invalid_json"
+    }
+}
+
+// =============================================================================================
+// Stream generator
+
+#[derive(Clone, Copy)]
+struct GenOpts {
+    max_len: usize,
+    /// `[DONE]` may appear before the end (only meaningful for the pure decoder, which does not stop)
+    done_mid: bool,
+    /// function-call events allowed (never end to end: they would start tool execution)
+    tools: bool,
+    /// cut the stream at an arbitrary char boundary instead of a clean end
+    wild_cut: bool,
+}
+
+fn is_ws_start(s: &str) -> bool {
+    s.chars().next().map(|c| c.is_whitespace()).unwrap_or(false)
+}
+
+/// Random one-line text that is safe as a raw data value: no CR/LF, no leading whitespace.
+fn raw_text(rng: &mut Rng, n: usize) -> String {
+    let mut t: String = rng.unicode(n).chars().filter(|c| *c != '\r' && *c != '\n').collect();
+    while is_ws_start(&t) {
+        let mut it = t.chars();
+        it.next();
+        t = it.collect();
+    }
+    if t.ends_with('\r') {
+        t.pop();
+    }
+    t
+}
+
+fn small_json(rng: &mut Rng) -> String {
+    match rng.below(9) {
+        0 => "{\"a\":1}".to_string(),
+        1 => "[]".to_string(),
+        2 => "1".to_string(),
+        3 => "null".to_string(),
+        4 => format!("\"{}\"", rng.ident(3)),
+        5 => format!("{{\"type\":\"{}\"}}", rng.ident(4)),
+        6 => json!({"type":"response.output_text.delta","delta": rng.unicode(2)}).to_string(),
+        7 => json!({"type":"response.output_text.delta","delta": 5}).to_string(),
+        _ => json!({"k": rng.unicode(3), "n": rng.below(1000)}).to_string(),
+    }
+}
+
+fn invalid_json(rng: &mut Rng) -> String {
+    match rng.below(7) {
+        0 => "{not json}".to_string(),
+        1 => "{\"type\":".to_string(),
+        2 => "[DONE] ".to_string() + "x",
+        3 => "[done]".to_string(),
+        4 => {
+            let n = 1 + rng.usize(6);
+            let t = raw_text(rng, n);
+            if t.is_empty() || serde_json::from_str::<Value>(&t).is_ok() || t == "[DONE]" {
+                "~".to_string()
+            } else {
+                t
+            }
+        }
+        5 => "{\"delta\":\"x\"".to_string(),
+        _ => "tru".to_string(),
+    }
+}
+
+struct Block {
+    lines: Vec<String>,
+    /// true when the block is terminated by a blank line (dispatch)
+    blank: bool,
+}
+
+fn event_line(rng: &mut Rng, name: &str) -> String {
+    match rng.below(8) {
+        0 => format!("event:{name}"),
+        1 => format!("event:  {name}  "),
+        2 => "event:".to_string(),
+        3 => format!("event: {}", rng.ident(5)),
+        _ => format!("event: {name}"),
+    }
+}
+
+fn data_lines(rng: &mut Rng, payload_lines: &[String]) -> Vec<String> {
+    let nospace = rng.chance(1, 6);
+    payload_lines
+        .iter()
+        .map(|p| {
+            if nospace && !is_ws_start(p) && !p.is_empty() {
+                format!("data:{p}")
+            } else {
+                format!("data: {p}")
+            }
+        })
+        .collect()
+}
+
+/// JSON value rendered over several lines (joined with "\n" it is the same JSON value); no line
+/// starts with whitespace.
+fn multiline_json(v: &Value) -> Vec<String> {
+    serde_json::to_string_pretty(v)
+        .unwrap_or_default()
+        .lines()
+        .map(|l| l.trim_start().to_string())
+        .collect()
+}
+
+fn gen_block(rng: &mut Rng, room: usize, seqno: &mut u64, o: &GenOpts) -> Block {
+    let big = room > 1200;
+    let mid = room > 260;
+    let pick = rng.below(100);
+    let mut lines = Vec::new();
+    let blank = true;
+    let ty_delta = "response.output_text.delta";
+    if pick < 22 {
+        // text delta, full or minimal shape
+        let n_chars = if mid { 1 + rng.usize(12) } else { 1 + rng.usize(2) };
+        let delta = rng.unicode(n_chars);
+        let v = if mid {
+            *seqno += 1;
+            ev_text_delta(*seqno, "msg_1", &delta)
+        } else {
+            json!({"type": ty_delta, "delta": delta})
+        };
+        if rng.chance(3, 4) {
+            lines.push(event_line(rng, ty_delta));
+        }
+        if mid && rng.chance(1, 5) {
+            lines.extend(data_lines(rng, &multiline_json(&v)));
+        } else {
+            lines.extend(data_lines(rng, &[v.to_string()]));
+        }
+    } else if pick < 34 {
+        let p = small_json(rng);
+        if rng.chance(1, 3) {
+            lines.push(event_line(rng, "message"));
+        }
+        lines.extend(data_lines(rng, &[p]));
+    } else if pick < 46 {
+        let p = invalid_json(rng);
+        if rng.chance(1, 3) {
+            lines.push(event_line(rng, "response.created"));
+        }
+        lines.extend(data_lines(rng, &[p]));
+    } else if pick < 52 {
+        // empty payload
+        lines.push(if rng.bool() { "data:".to_string() } else { "data: ".to_string() });
+    } else if pick < 60 {
+        // multi-line data: valid JSON spread over lines, or arbitrary lines
+        if rng.bool() {
+            let n_chars = 1 + rng.usize(4);
+            let v = json!({"type": ty_delta, "delta": rng.unicode(n_chars), "n": [1, 2, {"x": null}]});
+            lines.extend(data_lines(rng, &multiline_json(&v)));
+        } else {
+            let n = 2 + rng.usize(3);
+            let parts: Vec<String> = (0..n)
+                .map(|_| {
+                    if rng.chance(1, 4) {
+                        String::new()
+                    } else {
+                        let k = 1 + rng.usize(4);
+                        raw_text(rng, k)
+                    }
+                })
+                .collect();
+            lines.extend(data_lines(rng, &parts));
+        }
+    } else if pick < 68 {
+        // noise in front of an event
+        match rng.below(6) {
+            0 => lines.push(": keep-alive".to_string()),
+            1 => lines.push(":".to_string()),
+            2 => lines.push(format!("id: {}", rng.below(100))),
+            3 => lines.push("retry: 1000".to_string()),
+            4 => lines.push(format!("x-{}: {}", rng.ident(3), rng.ident(3))),
+            _ => lines.push(format!(": {}", raw_text(rng, 3))),
+        }
+        let p = small_json(rng);
+        lines.extend(data_lines(rng, &[p]));
+        if rng.chance(1, 3) {
+            lines.push(": trailing comment".to_string());
+        }
+    } else if pick < 73 {
+        // event line without data, then blank (no dispatch)
+        lines.push(event_line(rng, "response.in_progress"));
+    } else if pick < 78 {
+        // only noise (blank line dispatches nothing)
+        lines.push(": ping".to_string());
+    } else if pick < 82 {
+        // extra blank line
+    } else if pick < 86 && o.done_mid {
+        lines.push("data: [DONE]".to_string());
+    } else if pick < 92 && big {
+        *seqno += 1;
+        let v = if rng.bool() { ev_created(*seqno, "resp_1") } else { ev_completed(*seqno, "resp_1", json!([])) };
+        let name = v.get("type").and_then(|t| t.as_str()).unwrap_or("x").to_string();
+        lines.push(event_line(rng, &name));
+        lines.extend(data_lines(rng, &[v.to_string()]));
+    } else if pick < 96 && big && o.tools {
+        *seqno += 1;
+        let item = crate::provider::function_call_item(Some("fc_1"), "call_1", "read", "{}", "in_progress");
+        let v = match rng.below(3) {
+            0 => crate::provider::ev_item_added(*seqno, 0, item),
+            1 => crate::provider::ev_args_delta(*seqno, "fc_1", 0, "{\"pa"),
+            _ => crate::provider::ev_args_done(*seqno, "fc_1", 0, "{\"path\":\"a\"}"),
+        };
+        let name = v.get("type").and_then(|t| t.as_str()).unwrap_or("x").to_string();
+        lines.push(event_line(rng, &name));
+        lines.extend(data_lines(rng, &[v.to_string()]));
+    } else {
+        let p = small_json(rng);
+        lines.extend(data_lines(rng, &[p]));
+    }
+    Block { lines, blank }
+}
+
+/// Generate an SSE text of at most `o.max_len` bytes. Returns the text.
+fn gen_stream(rng: &mut Rng, o: &GenOpts) -> String {
+    let eol_mode = rng.below(4); // 0 LF, 1 CRLF, 2/3 mixed
+    let mut s = String::new();
+    let mut seqno = 0u64;
+    let eol = |rng: &mut Rng| -> &'static str {
+        match eol_mode {
+            0 => "\n",
+            1 => "\r\n",
+            _ => {
+                if rng.bool() {
+                    "\n"
+                } else {
+                    "\r\n"
+                }
+            }
+        }
+    };
+    let done_at_end = rng.chance(2, 3);
+    let reserve = if done_at_end { 16 } else { 0 };
+    let mut tries = 0;
+    loop {
+        tries += 1;
+        if tries > 400 {
+            break;
+        }
+        let room = o.max_len.saturating_sub(s.len() + reserve);
+        if room < 8 {
+            break;
+        }
+        let b = gen_block(rng, room, &mut seqno, o);
+        let mut t = String::new();
+        for l in &b.lines {
+            t.push_str(l);
+            t.push_str(eol(rng));
+        }
+        if b.blank {
+            t.push_str(eol(rng));
+        }
+        if t.len() > room {
+            if s.is_empty() || rng.chance(1, 2) {
+                continue;
+            }
+            break;
+        }
+        s.push_str(&t);
+        // streams shorter than the cap are wanted too
+        if rng.chance(1, 12) {
+            break;
+        }
+    }
+    if done_at_end {
+        s.push_str("data: [DONE]");
+        s.push_str(eol(rng));
+        s.push_str(eol(rng));
+    }
+    // ending: clean, missing final blank line, or arbitrary cut
+    match rng.below(10) {
+        0 | 1 => {
+            // drop the last line terminator (missing final blank line)
+            if s.ends_with("\r\n") {
+                s.truncate(s.len() - 2);
+            } else if s.ends_with('\n') {
+                s.truncate(s.len() - 1);
+            }
+            if rng.bool() {
+                // … and the terminator of the last field line as well
+                if s.ends_with("\r\n") {
+                    s.truncate(s.len() - 2);
+                } else if s.ends_with('\n') {
+                    s.truncate(s.len() - 1);
+                }
+            }
+        }
+        2 if o.wild_cut && s.len() > 2 => {
+            let mut cut = 1 + rng.usize(s.len() - 1);
+            while !s.is_char_boundary(cut) {
+                cut -= 1;
+            }
+            s.truncate(cut);
+        }
+        3 if s.ends_with("\r\n") => {
+            // cut between the CR and LF of the final blank line
+            s.truncate(s.len() - 1);
+        }
+        _ => {}
+    }
+    // a lone CR anywhere but at the very end is outside the documented subset
+    debug_assert!(!s[..s.len().saturating_sub(1)].replace("\r\n", "").contains('\r'));
+    s
+}
+
+// =============================================================================================
+// Cut-context classes (evidence: which kinds of split positions were exercised)
+
+fn cut_class(b: &[u8], p: usize) -> &'static str {
+    if p == 0 || p >= b.len() {
+        return "edge";
+    }
+    let prev = b[p - 1];
+    let next = b[p];
+    if prev == b'\r' && next == b'\n' {
+        return "between_cr_lf";
+    }
+    if (next & 0xC0) == 0x80 {
+        return "inside_multibyte_or_invalid";
+    }
+    if prev == b'\n' && (next == b'\n' || next == b'\r') {
+        return "before_blank_line";
+    }
+    let ls = b[..p].iter().rposition(|c| *c == b'\n').map(|i| i + 1).unwrap_or(0);
+    if p == ls {
+        return "line_start";
+    }
+    if next == b'\n' || next == b'\r' {
+        return "line_end";
+    }
+    let mut colon = None;
+    for (k, c) in b[ls..].iter().enumerate() {
+        if *c == b'\n' {
+            break;
+        }
+        if *c == b':' {
+            colon = Some(ls + k);
+            break;
+        }
+    }
+    match colon {
+        Some(c) if p <= c => "inside_field_name",
+        Some(c) if p <= c + 2 => "after_colon",
+        _ => {
+            if prev >= 0x80 || next >= 0x80 {
+                "next_to_multibyte"
+            } else {
+                "inside_value"
+            }
+        }
+    }
+}
+
+fn bucket(n: usize) -> &'static str {
+    match n {
+        0 | 1 => "1",
+        2 => "2",
+        3 => "3",
+        4..=7 => "4-7",
+        8..=31 => "8-31",
+        32..=127 => "32-127",
+        _ => "128+",
+    }
+}
+
+fn shape_of(b: &[u8], cuts: &[usize]) -> (String, BTreeSet<&'static str>) {
+    let classes: BTreeSet<&'static str> = cuts.iter().map(|p| cut_class(b, *p)).collect();
+    let s = format!("{}|{}", bucket(cuts.len() + 1), classes.iter().cloned().collect::<Vec<_>>().join(","));
+    (s, classes)
+}
+
+// =============================================================================================
+// (A) pure decoder + mapper
+
+fn strip_volatile(mut v: Value) -> Value {
+    if let Some(o) = v.as_object_mut() {
+        o.remove("id");
+        o.remove("timestamp_ms");
+    }
+    v
+}
+
+/// Frames the public decoder + mapper produce for `s` pushed in the chunks delimited by `cuts`.
+fn decode_partition(s: &str, cuts: &[usize], validation: ValidationOptions) -> Vec<Value> {
+    let mut d = SseDecoder::new_with_validation(validation);
+    let mut m = EventFrameMapper::new("s");
+    let mut frames = Vec::new();
+    let mut from = 0usize;
+    for &c in cuts.iter().chain(std::iter::once(&s.len())) {
+        for p in d.push(&s[from..c]) {
+            for f in m.map(&p) {
+                frames.push(strip_volatile(serde_json::to_value(&f).unwrap_or(Value::Null)));
+            }
+        }
+        from = c;
+    }
+    for p in d.finish() {
+        for f in m.map(&p) {
+            frames.push(strip_volatile(serde_json::to_value(&f).unwrap_or(Value::Null)));
+        }
+    }
+    frames
+}
+
+struct Judged {
+    provider_events: usize,
+    text_deltas: usize,
+}
+
+/// Compare the frames of one decoding with the reference events. `lossy` = body had invalid
+/// UTF-8 (payloads compared modulo runs of U+FFFD). `prefix_until_done` = frames may stop after
+/// the terminal marker (end-to-end reader) or continue (pure decoder).
+/// Returns Err((signature suffix, description)).
+fn judge_against_reference(
+    frames: &[Value],
+    reference: &[String],
+    lossy: bool,
+    stop_at_done: bool,
+) -> Result<Judged, (String, String)> {
+    let pe: Vec<&Value> = frames.iter().filter(|f| f["type"] == "provider_event").collect();
+    let expected: Vec<&String> = if stop_at_done {
+        match reference.iter().position(|e| e == "[DONE]") {
+            Some(k) => reference[..=k].iter().collect(),
+            None => reference.iter().collect(),
+        }
+    } else {
+        reference.iter().collect()
+    };
+    let tail_after_done = stop_at_done && expected.len() < reference.len();
+    // with bytes after the terminal marker the number of frames is not defined by the statement
+    // (the reader may stop): require the prefix only
+    if (!tail_after_done && pe.len() != expected.len()) || pe.len() < expected.len() {
+        return Err((
+            "event_count_differs_from_reference".to_string(),
+            format!("{} provider_event frames for {} server-sent events", pe.len(), expected.len()),
+        ));
+    }
+    let norm = |s: &str| if lossy { collapse_fffd(s) } else { s.to_string() };
+    for (i, (f, e)) in pe.iter().zip(expected.iter()).enumerate() {
+        let want = expected_status(e);
+        let got = f["status"].as_str().unwrap_or("");
+        if got != want {
+            return Err((
+                format!("status_differs_from_reference/{want}"),
+                format!("event {i}: payload {:?} should give status {want}, frame has {got}", clip(e)),
+            ));
+        }
+        match want {
+            "event" => {
+                let v: Value = serde_json::from_str(e).unwrap_or(Value::Null);
+                let same = if lossy {
+                    norm(&f["data"].to_string()) == norm(&v.to_string())
+                } else {
+                    f["data"] == v
+                };
+                if !same || !f["raw"].is_null() {
+                    return Err((
+                        "payload_changed/event".to_string(),
+                        format!("event {i}: frame data {} != payload {}", clip(&f["data"].to_string()), clip(e)),
+                    ));
+                }
+            }
+            _ => {
+                let raw = f["raw"].as_str().unwrap_or("\u{0}<absent>");
+                if norm(raw) != norm(e) || !f["data"].is_null() {
+                    return Err((
+                        format!("payload_changed/{want}"),
+                        format!("event {i}: frame raw {:?} != payload {:?}", clip(raw), clip(e)),
+                    ));
+                }
+            }
+        }
+    }
+    // derived text == concatenation of the provider's text deltas (of the events that were framed)
+    let framed: Vec<String> = reference.iter().take(pe.len()).cloned().collect();
+    let want_text = reference_text(&framed);
+    let mut got_text = String::new();
+    let mut n_deltas = 0;
+    for f in frames {
+        if f["type"] == "output_text_delta" {
+            got_text.push_str(f["delta"].as_str().unwrap_or(""));
+            n_deltas += 1;
+        }
+    }
+    if norm(&got_text) != norm(&want_text) {
+        return Err((
+            "output_text_not_concatenation_of_deltas".to_string(),
+            format!("output text {:?} != concatenated provider deltas {:?}", clip(&got_text), clip(&want_text)),
+        ));
+    }
+    // every output_text_delta directly follows the provider_event it was derived from
+    for (i, f) in frames.iter().enumerate() {
+        if f["type"] == "output_text_delta" {
+            let ok = i > 0
+                && frames[i - 1]["type"] == "provider_event"
+                && frames[i - 1]["data"]["delta"].as_str() == f["delta"].as_str();
+            if !ok {
+                return Err((
+                    "text_delta_not_after_its_provider_event".to_string(),
+                    format!("output_text_delta at position {i} does not follow its provider_event"),
+                ));
+            }
+        }
+    }
+    Ok(Judged { provider_events: pe.len(), text_deltas: n_deltas })
+}
+
+fn clip(s: &str) -> String {
+    if s.len() <= 160 {
+        return s.to_string();
+    }
+    let mut e = 160;
+    while !s.is_char_boundary(e) {
+        e -= 1;
+    }
+    format!("{}…(+{} bytes)", &s[..e], s.len() - e)
+}
+
+fn collapse_fffd(s: &str) -> String {
+    let mut out = String::with_capacity(s.len());
+    let mut prev = false;
+    for c in s.chars() {
+        if c == '\u{FFFD}' {
+            if !prev {
+                out.push(c);
+            }
+            prev = true;
+        } else {
+            out.push(c);
+            prev = false;
+        }
+    }
+    out
+}
+
+fn a_case(cfg: &Cfg, r: &mut Report, idx: u64) {
+    let mut rng = cfg.case_rng(idx);
+    // size class
+    let class = rng.below(10);
+    let (max_len, mode) = match class {
+        0..=3 => (20 + rng.usize(41), "tiny"),    // <= 60: all 2-splits + all single splits
+        4..=7 => (61 + rng.usize(340), "small"),  // <= 400: all single splits
+        _ => (1_000 + rng.usize(cfg.tier.pick(12_000, 60_000)), "long"),
+    };
+    let o = GenOpts { max_len, done_mid: true, tools: true, wild_cut: true };
+    let s = gen_stream(&mut rng, &o);
+    if s.is_empty() {
+        return;
+    }
+    let validation = if rng.chance(1, 4) {
+        ValidationOptions::compat_missing_item_ids()
+    } else {
+        ValidationOptions::strict()
+    };
+    let whole = decode_partition(&s, &[], validation);
+    let reference = reference_events(&s);
+    r.count("A_streams", 1);
+    r.count("A_stream_bytes", s.len() as u64);
+    r.count("A_reference_events", reference.len() as u64);
+
+    // mapper numbering 0,1,2,…
+    for (i, f) in whole.iter().enumerate() {
+        if f["seq"].as_u64() != Some(i as u64) {
+            r.violation(
+                "C15/A/mapper_seq_not_consecutive",
+                &format!("frame {i} of a decoded stream has seq {}", f["seq"]),
+                json!({"case": idx, "phase": "A", "stream": s}),
+            );
+            return;
+        }
+    }
+    match judge_against_reference(&whole, &reference, false, false) {
+        Ok(j) => {
+            r.count("A_provider_event_frames_judged", j.provider_events as u64);
+            r.count("A_text_delta_frames_judged", j.text_deltas as u64);
+        }
+        Err((kind, what)) => {
+            r.violation(
+                &format!("C15/A/{kind}"),
+                &format!("decoder+mapper on the whole text: {what}"),
+                json!({"case": idx, "phase": "A", "stream": s, "reference_events": reference, "frames": whole}),
+            );
+            return;
+        }
+    }
+
+    let bounds: Vec<usize> = s.char_indices().map(|(i, _)| i).filter(|i| *i > 0).collect();
+    let nontrivial = !reference.is_empty();
+    let sh = fnv_str(&s);
+    let mut checked = 0u64;
+    let mut check = |r: &mut Report, cuts: &[usize], family: &str| -> bool {
+        let got = decode_partition(&s, cuts, validation);
+        checked += 1;
+        if nontrivial && !cuts.is_empty() {
+            let (shape, classes) = shape_of(s.as_bytes(), cuts);
+            r.distinct(sh ^ fnv_str(&shape));
+            if family == "single" {
+                for c in classes {
+                    r.count(&format!("A_single_split@{c}"), 1);
+                }
+            }
+        }
+        if got != whole {
+            let first = got.iter().zip(whole.iter()).position(|(a, b)| a != b).unwrap_or(got.len().min(whole.len()));
+            let class = if cuts.len() == 1 { cut_class(s.as_bytes(), cuts[0]) } else { "multi" };
+            r.violation(
+                &format!("C15/A/frames_depend_on_partition/{family}/cut@{class}"),
+                &format!(
+                    "SseDecoder+EventFrameMapper: {} frames when pushed whole, {} frames when pushed in {} chunks; first difference at frame {first}",
+                    whole.len(),
+                    got.len(),
+                    cuts.len() + 1
+                ),
+                json!({"case": idx, "phase": "A", "stream": s, "cuts": cuts,
+                       "frame_whole": whole.get(first), "frame_partitioned": got.get(first)}),
+            );
+            return false;
+        }
+        true
+    };
+
+    let mut ok = true;
+    if mode != "long" {
+        for &b in &bounds {
+            if !check(r, &[b], "single") {
+                ok = false;
+                break;
+            }
+        }
+        r.count("A_streams_all_single_splits", 1);
+    }
+    if ok && s.len() <= 60 {
+        'outer: for i in 0..bounds.len() {
+            for j in i + 1..bounds.len() {
+                if !check(r, &[bounds[i], bounds[j]], "two") {
+                    ok = false;
+                    break 'outer;
+                }
+            }
+        }
+        r.count("A_streams_all_two_splits", 1);
+    }
+    if ok && (mode != "long" || s.len() <= 20_000) {
+        // char at a time
+        ok = check(r, &bounds, "char_at_a_time");
+    }
+    if ok {
+        // random partitions
+        let n_rand = if mode == "long" { cfg.tier.pick(40, 120) } else { 12 };
+        for k in 0..n_rand {
+            let cuts = random_cuts(&mut rng, s.as_bytes(), &bounds, k);
+            if !check(r, &cuts, "random") {
+                break;
+            }
+        }
+        if mode == "long" {
+            // single splits at a sample of positions, biased to line structure
+            for _ in 0..cfg.tier.pick(60, 200) {
+                if bounds.is_empty() {
+                    break;
+                }
+                let b = *rng.pick(&bounds);
+                let b = if rng.bool() { near_newline(s.as_bytes(), &bounds, b) } else { b };
+                if !check(r, &[b], "single") {
+                    break;
+                }
+            }
+        }
+    }
+    r.evals(checked);
+    r.count("A_partitions_checked", checked);
+    if r.samples.len() < 2 && nontrivial && mode == "small" {
+        r.sample(json!({"phase": "A", "case": idx, "stream": clip(&s), "bytes": s.len(), "reference_events": reference.len(),
+                        "frames": whole.len(), "partitions_checked": checked}));
+    }
+}
+
+fn near_newline(b: &[u8], bounds: &[usize], p: usize) -> usize {
+    // move to the closest following boundary that touches a CR/LF
+    let start = bounds.binary_search(&p).unwrap_or_else(|x| x.min(bounds.len() - 1));
+    for &q in bounds[start..].iter().take(200) {
+        if b[q - 1] == b'\n' || b[q - 1] == b'\r' || b[q] == b'\n' || b[q] == b'\r' {
+            return q;
+        }
+    }
+    p
+}
+
+/// Random ascending subset of `bounds`; style varies with `k`.
+fn random_cuts(rng: &mut Rng, b: &[u8], bounds: &[usize], k: usize) -> Vec<usize> {
+    if bounds.is_empty() {
+        return Vec::new();
+    }
+    let mut set: BTreeSet<usize> = BTreeSet::new();
+    match k % 5 {
+        0 => {
+            // few cuts
+            for _ in 0..1 + rng.usize(4) {
+                set.insert(*rng.pick(bounds));
+            }
+        }
+        1 => {
+            // dense
+            for &q in bounds {
+                if rng.chance(1, 3) {
+                    set.insert(q);
+                }
+            }
+        }
+        2 => {
+            // every cut touches a line terminator
+            for &q in bounds {
+                let touch = b[q - 1] == b'\n' || b[q - 1] == b'\r' || b[q] == b'\n' || b[q] == b'\r';
+                if touch && rng.chance(2, 3) {
+                    set.insert(q);
+                }
+            }
+        }
+        3 => {
+            // roughly uniform chunk size
+            let size = 1 + rng.usize(64);
+            let mut next = size;
+            for &q in bounds {
+                if q >= next {
+                    set.insert(q);
+                    next = q + size;
+                }
+            }
+        }
+        _ => {
+            // moderate
+            let n = 1 + rng.usize(bounds.len().min(40));
+            for _ in 0..n {
+                set.insert(*rng.pick(bounds));
+            }
+        }
+    }
+    set.into_iter().collect()
+}
+
+// =============================================================================================
+// (B) end to end over TCP
+
+struct Chunking {
+    label: &'static str,
+    sizes: Vec<usize>,
+    pause_us: u64,
+}
+
+impl Chunking {
+    fn from_cuts(label: &'static str, len: usize, cuts: &[usize], pause_us: u64) -> Chunking {
+        let mut sizes = Vec::new();
+        let mut from = 0;
+        for &c in cuts {
+            if c > from && c < len {
+                sizes.push(c - from);
+                from = c;
+            }
+        }
+        // the remainder goes out as the last chunk
+        Chunking { label, sizes, pause_us }
+    }
+    fn cuts(&self, len: usize) -> Vec<usize> {
+        let mut out = Vec::new();
+        let mut at = 0;
+        for s in &self.sizes {
+            at += s;
+            if at < len {
+                out.push(at);
+            }
+        }
+        out
+    }
+}
+
+struct RunOut {
+    label: &'static str,
+    planned: Vec<usize>,
+    observed: Vec<usize>,
+    /// provider_event / output_text_delta frames, volatile fields removed, seq relative to the first
+    frames: Vec<Value>,
+}
+
+struct LogTail {
+    path: std::path::PathBuf,
+    offset: u64,
+    carry: Vec<u8>,
+}
+
+impl LogTail {
+    fn new(path: std::path::PathBuf) -> Self {
+        LogTail { path, offset: 0, carry: Vec::new() }
+    }
+    /// New complete lines since the last poll.
+    fn poll(&mut self) -> Vec<Value> {
+        use std::io::{Read, Seek, SeekFrom};
+        let mut out = Vec::new();
+        let Ok(mut f) = std::fs::File::open(&self.path) else {
+            return out;
+        };
+        if f.seek(SeekFrom::Start(self.offset)).is_err() {
+            return out;
+        }
+        let mut buf = Vec::new();
+        if f.read_to_end(&mut buf).is_err() {
+            return out;
+        }
+        self.offset += buf.len() as u64;
+        self.carry.extend_from_slice(&buf);
+        while let Some(nl) = self.carry.iter().position(|c| *c == b'\n') {
+            let line: Vec<u8> = self.carry.drain(..=nl).collect();
+            if let Ok(v) = serde_json::from_slice::<Value>(&line[..line.len() - 1]) {
+                out.push(v);
+            }
+        }
+        out
+    }
+}
+
+struct E2e {
+    rt: tokio::runtime::Runtime,
+    provider: Provider,
+    replies: Arc<Mutex<HashMap<u64, Reply>>>,
+    next_key: u64,
+    s: Arc<Sched>,
+    // evidence
+    bodies: u64,
+    bodies_multi_partition: u64,
+    bodies_single_partition_only: u64,
+    runs: u64,
+    observed_partitions: HashSet<u64>,
+    observed_cut_classes: BTreeSet<&'static str>,
+}
+
+fn key_of(rec: &Recorded) -> Option<u64> {
+    let b = &rec.body;
+    let tag = b"C15KEY";
+    let pos = b.windows(tag.len()).position(|w| w == tag)?;
+    let digits: String = b[pos + tag.len()..]
+        .iter()
+        .take_while(|c| c.is_ascii_digit())
+        .map(|c| *c as char)
+        .collect();
+    digits.parse().ok()
+}
+
+impl E2e {
+    fn start() -> E2e {
+        let replies: Arc<Mutex<HashMap<u64, Reply>>> = Arc::new(Mutex::new(HashMap::new()));
+        let r2 = replies.clone();
+        let provider = Provider::start(Arc::new(move |rec: &Recorded| {
+            match key_of(rec).and_then(|k| r2.lock().unwrap().remove(&k)) {
+                Some(reply) => reply,
+                None => Reply::status(500, "{\"error\":\"c15: unknown key\"}"),
+            }
+        }));
+        let s = sched();
+        s.reset();
+        s.record(true, &["sse.chunk"]);
+        E2e {
+            rt: runtime(4),
+            provider,
+            replies,
+            next_key: 1,
+            s,
+            bodies: 0,
+            bodies_multi_partition: 0,
+            bodies_single_partition_only: 0,
+            runs: 0,
+            observed_partitions: HashSet::new(),
+            observed_cut_classes: BTreeSet::new(),
+        }
+    }
+
+    fn config(&self) -> OpenResponsesConfig {
+        OpenResponsesConfig {
+            endpoint: self.provider.endpoint(),
+            api_key: None,
+            model: Some("m".into()),
+            headers: vec![],
+            tool_choice: ToolChoiceParam::auto(),
+            followup_user_message: None,
+            stateless_history: false,
+            parallel_tool_calls: false,
+        }
+    }
+
+    /// Run one session per chunking of `body` (sequentially, so that the sse.chunk events between
+    /// two runs belong to exactly one response). Err = harness-level problem (inconclusive).
+    fn run_body(&mut self, body: &[u8], chunkings: &[Chunking], deadline: Instant) -> Result<(Vec<RunOut>, Vec<u8>), String> {
+        let store = Store::new("c15");
+        let app = App::open(&store, Some(self.config()))?;
+        let mut tail = LogTail::new(store.log_path());
+        let mut outs = Vec::new();
+        for ch in chunkings {
+            if Instant::now() > deadline && outs.len() >= 3 {
+                break;
+            }
+            let key = self.next_key;
+            self.next_key += 1;
+            self.replies
+                .lock()
+                .unwrap()
+                .insert(key, Reply::sse(body.to_vec()).chunked(ch.sizes.clone(), ch.pause_us));
+            let _ = self.s.take_events();
+            let app2 = app.clone();
+            let res: Result<Vec<Value>, String> = self.rt.block_on(async {
+                let (st, v) = app2.json("POST", "/sessions", None).await;
+                let sid = v.get("session_id").and_then(|x| x.as_str()).unwrap_or("").to_string();
+                if st != 201 || sid.is_empty() {
+                    return Err(format!("POST /sessions -> {st}"));
+                }
+                let (st, _) = app2
+                    .call("POST", &format!("/sessions/{sid}/input"), Some(&json!({"input": format!("C15KEY{key} hello")})))
+                    .await;
+                if st != 202 {
+                    return Err(format!("POST /sessions/{{id}}/input -> {st}"));
+                }
+                let mut mine: Vec<Value> = Vec::new();
+                let start = Instant::now();
+                loop {
+                    let mut ended = false;
+                    for v in tail.poll() {
+                        if v.get("stream_id").and_then(|x| x.as_str()) == Some(sid.as_str())
+                            || v.get("session_id").and_then(|x| x.as_str()) == Some(sid.as_str())
+                        {
+                            if v["type"] == "session_ended" {
+                                ended = true;
+                            }
+                            mine.push(v);
+                        }
+                    }
+                    if ended {
+                        return Ok(mine);
+                    }
+                    if start.elapsed() > Duration::from_secs(15) {
+                        return Err("session did not end within 15 s".to_string());
+                    }
+                    tokio::time::sleep(Duration::from_micros(500)).await;
+                }
+            });
+            let events = self.s.take_events();
+            self.replies.lock().unwrap().remove(&key);
+            let session_frames = res?;
+            let observed: Vec<usize> = events
+                .iter()
+                .filter(|e| e.point == "sse.chunk")
+                .filter_map(|e| e.ctx.trim().parse::<usize>().ok())
+                .collect();
+            // seq continuity inside this session stream (the whole log is checked at the end too)
+            for (i, f) in session_frames.iter().enumerate() {
+                if f["seq"].as_u64() != Some(i as u64) {
+                    return Ok((
+                        vec![RunOut { label: "session_seq_not_consecutive", planned: ch.sizes.clone(), observed, frames: session_frames.clone() }],
+                        store.log_bytes(),
+                    ));
+                }
+            }
+            let mut frames = Vec::new();
+            let mut base: Option<u64> = None;
+            let mut prev_seq: Option<u64> = None;
+            let mut contiguous = true;
+            for f in &session_frames {
+                let ty = f["type"].as_str().unwrap_or("");
+                if ty == "provider_event" || ty == "output_text_delta" {
+                    let seq = f["seq"].as_u64().unwrap_or(0);
+                    if base.is_none() {
+                        base = Some(seq);
+                        // "continues without gap from the frames before it"
+                        let before_ok = session_frames
+                            .iter()
+                            .any(|g| g["type"] == "openresponses_response_first_byte" && g["seq"].as_u64() == Some(seq.wrapping_sub(1)));
+                        contiguous &= before_ok;
+                    }
+                    if let Some(p) = prev_seq {
+                        contiguous &= seq == p + 1;
+                    }
+                    prev_seq = Some(seq);
+                    let mut g = f.clone();
+                    if let Some(o) = g.as_object_mut() {
+                        for k in ["id", "timestamp_ms", "session_id", "stream_id", "stream_kind"] {
+                            o.remove(k);
+                        }
+                        o.insert("seq".into(), json!(seq - base.unwrap_or(0)));
+                    }
+                    frames.push(g);
+                }
+            }
+            if !contiguous {
+                return Ok((
+                    vec![RunOut { label: "provider_frames_not_contiguous", planned: ch.sizes.clone(), observed, frames: session_frames.clone() }],
+                    store.log_bytes(),
+                ));
+            }
+            self.runs += 1;
+            outs.push(RunOut { label: ch.label, planned: ch.sizes.clone(), observed, frames });
+        }
+        let log = store.log_bytes();
+        drop(app);
+        Ok((outs, log))
+    }
+
+    fn finish(self, r: &mut Report) {
+        r.count("B_bodies", self.bodies);
+        r.count("B_session_runs", self.runs);
+        r.count("B_bodies_observed_under_2plus_partitions", self.bodies_multi_partition);
+        r.count("B_bodies_single_partition_only_inconclusive", self.bodies_single_partition_only);
+        r.count("B_distinct_body_partitions_observed", self.observed_partitions.len() as u64);
+        r.note(
+            "B_cut_classes_observed_at_sse_chunk_hook",
+            json!(self.observed_cut_classes.iter().cloned().collect::<Vec<_>>()),
+        );
+        if self.bodies_multi_partition == 0 {
+            r.fatal_inconclusive(&format!(
+                "(B): no body was observed under >= 2 different partitions at the sse.chunk hook ({} bodies run)",
+                self.bodies
+            ));
+        }
+        self.s.reset();
+    }
+}
+
+/// Invalid sequences: (bytes, std error_len of the first error when followed by ASCII)
+const INVALID: &[(&[u8], &str)] = &[
+    (&[0x80], "lone_continuation"),
+    (&[0xBF], "lone_continuation"),
+    (&[0xC3], "truncated_2byte"),
+    (&[0xE2], "truncated_3byte_1"),
+    (&[0xE2, 0x82], "truncated_3byte_2"),
+    (&[0xF0], "truncated_4byte_1"),
+    (&[0xF0, 0x9F], "truncated_4byte_2"),
+    (&[0xF0, 0x9F, 0x98], "truncated_4byte_3"),
+    (&[0xC0, 0x80], "overlong_2"),
+    (&[0xE0, 0x80, 0x80], "overlong_3"),
+    (&[0xF0, 0x80, 0x80, 0x80], "overlong_4"),
+    (&[0xED, 0xA0, 0x80], "surrogate"),
+    (&[0xFF], "invalid_byte"),
+    (&[0xF5], "invalid_byte"),
+    (&[0xF4, 0x90, 0x80, 0x80], "beyond_max"),
+    (&[0xE2, 0x82, 0xE2, 0x82, 0xAC], "truncated_then_valid"),
+];
+
+/// Largest `error_len` std reports for any invalid sequence in `b` (0 = valid UTF-8; an
+/// incomplete sequence at the very end does not count).
+fn max_error_len(b: &[u8]) -> usize {
+    let mut at = 0;
+    let mut max = 0;
+    while at < b.len() {
+        match std::str::from_utf8(&b[at..]) {
+            Ok(_) => break,
+            Err(e) => match e.error_len() {
+                Some(n) => {
+                    max = max.max(n);
+                    at += e.valid_up_to() + n;
+                }
+                None => break,
+            },
+        }
+    }
+    max
+}
+
+/// Reference text of a body: lossy decoding, without the incomplete sequence at the very end
+/// (the reader can never complete it).
+fn lossy_reference_text(b: &[u8]) -> (String, bool) {
+    let mut end = b.len();
+    let mut at = 0;
+    let mut invalid = false;
+    while at < b.len() {
+        match std::str::from_utf8(&b[at..]) {
+            Ok(_) => break,
+            Err(e) => {
+                invalid = true;
+                match e.error_len() {
+                    Some(n) => at += e.valid_up_to() + n,
+                    None => {
+                        end = at + e.valid_up_to();
+                        break;
+                    }
+                }
+            }
+        }
+    }
+    (String::from_utf8_lossy(&b[..end]).to_string(), invalid)
+}
+
+fn interesting_positions(b: &[u8]) -> Vec<usize> {
+    let mut v = Vec::new();
+    let n = b.len();
+    for p in 1..n {
+        let prev = b[p - 1];
+        let next = b[p];
+        let inside_mb = (next & 0xC0) == 0x80 || prev >= 0xC0;
+        let crlf = prev == b'\r' && next == b'\n';
+        let blank = prev == b'\n' && (next == b'\n' || next == b'\r');
+        let after_nl = prev == b'\n';
+        let line_start = p >= 2 && (p == 2 || b[p - 3] == b'\n') && b[p - 2].is_ascii_lowercase() && prev.is_ascii_lowercase();
+        let colon = prev == b':';
+        let around_invalid = next >= 0x80 || prev >= 0x80;
+        if inside_mb || crlf || blank || after_nl || line_start || colon || around_invalid {
+            v.push(p);
+        }
+    }
+    v
+}
+
+fn plan_chunkings(rng: &mut Rng, body: &[u8], quick: bool, must: &[usize]) -> Vec<Chunking> {
+    let n = body.len();
+    let pauses = [300u64, 600, 1000, 2000];
+    let mut out = vec![Chunking { label: "whole", sizes: vec![], pause_us: 0 }];
+    if n < 2 {
+        return out;
+    }
+    // directed single splits first
+    for &p in must {
+        if p > 0 && p < n {
+            out.push(Chunking::from_cuts("single_split", n, &[p], 1500));
+        }
+    }
+    if n <= cfg_pick(quick, 160, 600) {
+        out.push(Chunking { label: "byte_at_a_time", sizes: vec![1; n], pause_us: 300 });
+    }
+    let mut interesting = interesting_positions(body);
+    rng.shuffle(&mut interesting);
+    let n_single = cfg_pick(quick, 8, 20);
+    for &p in interesting.iter().take(n_single) {
+        out.push(Chunking::from_cuts("single_split", n, &[p], *rng.pick(&pauses)));
+    }
+    for _ in 0..cfg_pick(quick, 3, 8) {
+        let p = 1 + rng.usize(n - 1);
+        out.push(Chunking::from_cuts("single_split", n, &[p], *rng.pick(&pauses)));
+    }
+    // several cuts at interesting positions
+    for _ in 0..cfg_pick(quick, 2, 5) {
+        let k = 2 + rng.usize(6);
+        let mut cuts: Vec<usize> = interesting.iter().take(200).cloned().collect();
+        rng.shuffle(&mut cuts);
+        cuts.truncate(k);
+        cuts.sort_unstable();
+        cuts.dedup();
+        out.push(Chunking::from_cuts("multi_split_at_structure", n, &cuts, *rng.pick(&pauses)));
+    }
+    // uniform sizes
+    for size in [2usize, 3, 5, 7, 16, 61] {
+        if n / size <= cfg_pick(quick, 120, 400) && rng.chance(1, 2) {
+            out.push(Chunking { label: "uniform", sizes: vec![size; n / size + 1], pause_us: 300 });
+        }
+    }
+    // random partition
+    for _ in 0..cfg_pick(quick, 2, 5) {
+        let k = 1 + rng.usize(n.min(24));
+        let mut cuts: Vec<usize> = (0..k).map(|_| 1 + rng.usize(n - 1)).collect();
+        cuts.sort_unstable();
+        cuts.dedup();
+        out.push(Chunking::from_cuts("random", n, &cuts, *rng.pick(&pauses)));
+    }
+    out
+}
+
+fn cfg_pick(quick: bool, q: usize, t: usize) -> usize {
+    if quick {
+        q
+    } else {
+        t
+    }
+}
+
+/// Strings of all frames with runs of U+FFFD collapsed (used to classify a difference).
+fn frames_collapsed(frames: &[Value]) -> Vec<String> {
+    frames
+        .iter()
+        .map(|f| {
+            // error texts may quote a column / the value: only their number is kept here
+            let mut g = f.clone();
+            for k in ["errors", "response_errors"] {
+                let n = g[k].as_array().map(|a| a.len()).unwrap_or(0);
+                g[k] = json!(n);
+            }
+            collapse_fffd(&g.to_string())
+        })
+        .collect()
+}
+
+struct BodyInfo<'a> {
+    case: u64,
+    body: &'a [u8],
+    what: &'a str,
+    /// None = derive from the body
+    inject_labels: Vec<&'static str>,
+}
+
+/// Judge all runs of one body. Returns true when at least 2 distinct partitions were observed.
+fn judge_body(r: &mut Report, e: &mut E2e, info: &BodyInfo, outs: &[RunOut], log: &[u8]) -> bool {
+    let body = info.body;
+    let (ref_text, invalid) = lossy_reference_text(body);
+    let reference = reference_events(&ref_text);
+    let class = if invalid { "invalid_utf8" } else { "valid_utf8" };
+    let done_pos = reference.iter().position(|x| x == "[DONE]");
+    let tail_after_done = done_pos.map(|k| k + 1 < reference.len()).unwrap_or(false);
+    let witness = |extra: Value| {
+        json!({"case": info.case, "phase": "B", "what": info.what, "body_hex": hex::encode(body),
+               "body_lossy": clip(&String::from_utf8_lossy(body)), "injected": info.inject_labels, "detail": extra})
+    };
+
+    // harness-level early outs encoded in label
+    if let Some(o) = outs.iter().find(|o| o.label == "session_seq_not_consecutive" || o.label == "provider_frames_not_contiguous") {
+        r.violation(
+            &format!("C15/B/seq_gap/{}", o.label),
+            "session frame numbering does not continue 0,1,2,… through the provider frames",
+            witness(json!({"planned_chunks": o.planned, "observed_chunks": o.observed, "session_frames": o.frames})),
+        );
+        return false;
+    }
+    if outs.is_empty() {
+        return false;
+    }
+
+    // whole-log structure and numbering (independent parser)
+    match truth::parse_log(log) {
+        Ok(frames) => {
+            if let Err(err) = truth::check_streams(&frames) {
+                r.violation(
+                    &format!("C15/B/seq_gap/{}", err.kind),
+                    &format!("per-stream seq not 0,1,2,… after provider streaming: {}", err.detail),
+                    witness(json!(err.detail)),
+                );
+                return false;
+            }
+            r.count("B_log_frames_seq_checked", frames.len() as u64);
+        }
+        Err(err) => {
+            r.violation(
+                &format!("C15/B/log_structure/{}", err.kind),
+                &format!("event log is not whole JSON lines: {}", err.detail),
+                witness(json!(err.detail)),
+            );
+            return false;
+        }
+    }
+
+    // evidence: partitions really seen
+    let mut distinct_obs: HashSet<Vec<usize>> = HashSet::new();
+    let bh = fnv(body);
+    for o in outs {
+        distinct_obs.insert(o.observed.clone());
+        let mut cuts = Vec::new();
+        let mut at = 0;
+        for s in &o.observed {
+            at += s;
+            if at < body.len() {
+                cuts.push(at);
+            }
+        }
+        let key = bh ^ fnv_str(&format!("{:?}", o.observed));
+        if e.observed_partitions.insert(key) {
+            r.count("B_chunks_observed_at_hook", o.observed.len() as u64);
+        }
+        if o.observed.len() >= 2 && !reference.is_empty() {
+            let (shape, classes) = shape_of(body, &cuts);
+            r.distinct(bh ^ fnv_str(&shape) ^ 0xB);
+            for c in classes {
+                e.observed_cut_classes.insert(c);
+                r.count(&format!("B_observed_cut@{c}"), 1);
+            }
+        }
+        let planned_n = o.planned.len().max(1);
+        if o.observed.len() < planned_n.min(body.len()) && done_pos.is_none() {
+            r.count("B_runs_where_network_coalesced_chunks", 1);
+        }
+    }
+    let multi = distinct_obs.len() >= 2;
+
+    // 1. identical frames across all chunkings (run 0 = whole body written as one chunk)
+    let first = &outs[0];
+    for o in &outs[1..] {
+        r.eval();
+        if o.frames == first.frames {
+            continue;
+        }
+        let same_partition = o.observed == first.observed;
+        let idx = o
+            .frames
+            .iter()
+            .zip(first.frames.iter())
+            .position(|(a, b)| a != b)
+            .unwrap_or(o.frames.len().min(first.frames.len()));
+        let detail = json!({
+            "chunks_run_1": first.observed, "chunks_run_2": o.observed,
+            "planned_1": first.planned, "planned_2": o.planned,
+            "frames_run_1": first.frames.len(), "frames_run_2": o.frames.len(),
+            "first_differing_frame_run_1": first.frames.get(idx), "first_differing_frame_run_2": o.frames.get(idx),
+        });
+        if same_partition {
+            r.violation(
+                &format!("C15/B/frames_differ_under_identical_partition/{class}"),
+                "two runs that received the body in the same chunks produced different frames (non-determinism other than chunking)",
+                witness(detail),
+            );
+            return multi;
+        }
+        // classify
+        let upto_done = |f: &[Value]| -> Vec<Value> {
+            match f.iter().position(|x| x["type"] == "provider_event" && x["status"] == "done") {
+                Some(k) => f[..=k].to_vec(),
+                None => f.to_vec(),
+            }
+        };
+        if tail_after_done && !invalid && upto_done(&o.frames) == upto_done(&first.frames) {
+            r.violation(
+                SIG_F14,
+                &format!(
+                    "bytes after `data: [DONE]` are turned into frames only when they arrive in the same chunk as the marker: {} frames under chunks {:?} vs {} frames under chunks {:?}",
+                    first.frames.len(), clipv(&first.observed), o.frames.len(), clipv(&o.observed)
+                ),
+                witness(detail),
+            );
+            continue;
+        }
+        if invalid && max_error_len(body) >= 2 && frames_collapsed(&o.frames) == frames_collapsed(&first.frames) {
+            r.violation(
+                SIG_F13,
+                &format!(
+                    "same body, different number of U+FFFD for one invalid UTF-8 sequence depending on where the chunk boundary falls (chunks {:?} vs {:?})",
+                    clipv(&first.observed), clipv(&o.observed)
+                ),
+                witness(detail),
+            );
+            continue;
+        }
+        r.violation(
+            &format!("C15/B/frames_depend_on_chunking/{class}"),
+            &format!(
+                "same body bytes, different provider_event/output_text_delta frames: {} frames under chunks {:?}, {} under {:?}; first difference at frame {idx}",
+                first.frames.len(), clipv(&first.observed), o.frames.len(), clipv(&o.observed)
+            ),
+            witness(detail),
+        );
+        return multi;
+    }
+    // 2. reference: count / order / payload, for every run
+    for o in outs {
+        match judge_against_reference(&o.frames, &reference, invalid, true) {
+            Ok(j) => {
+                r.count("B_provider_event_frames_judged", j.provider_events as u64);
+                r.count("B_text_delta_frames_judged", j.text_deltas as u64);
+            }
+            Err((kind, what)) => {
+                r.violation(
+                    &format!("C15/B/{kind}/{class}"),
+                    &format!("session run against scripted provider ({} chunks observed): {what}", o.observed.len()),
+                    witness(json!({"planned_chunks": o.planned, "observed_chunks": o.observed,
+                                   "reference_events": reference, "frames": o.frames})),
+                );
+                return multi;
+            }
+        }
+    }
+
+    multi
+}
+
+fn clipv(v: &[usize]) -> Vec<usize> {
+    v.iter().take(12).cloned().collect()
+}
+
+fn account_body(e: &mut E2e, multi: bool) {
+    e.bodies += 1;
+    if multi {
+        e.bodies_multi_partition += 1;
+    } else {
+        e.bodies_single_partition_only += 1;
+    }
+}
+
+fn b_case(cfg: &Cfg, r: &mut Report, e: &mut E2e, idx: u64) {
+    let mut rng = cfg.case_rng(idx);
+    let quick = cfg.tier.pick(true, false);
+    let class = rng.below(10);
+    let max_len = match class {
+        0..=3 => 40 + rng.usize(120),
+        4..=7 => 160 + rng.usize(700),
+        _ => 1_000 + rng.usize(cfg.tier.pick(6_000, 40_000)),
+    };
+    let done_mid = rng.chance(1, 16);
+    let o = GenOpts { max_len, done_mid, tools: false, wild_cut: true };
+    let text = gen_stream(&mut rng, &o);
+    if text.is_empty() {
+        return;
+    }
+    let mut body = text.clone().into_bytes();
+    let mut labels: Vec<&'static str> = Vec::new();
+    let mut must: Vec<usize> = Vec::new();
+    if !done_mid && rng.chance(1, 2) {
+        // inject invalid UTF-8 at char boundaries (never between CR and LF)
+        let n_inj = 1 + rng.usize(3);
+        for _ in 0..n_inj {
+            // candidate positions: on a char boundary of the current bytes, ASCII (or nothing) on
+            // the left, never between CR and LF
+            let cands: Vec<usize> = (0..=body.len())
+                .filter(|&p| {
+                    let left_ok = p == 0 || body[p - 1] < 0x80;
+                    let right_ok = p == body.len() || (body[p] & 0xC0) != 0x80;
+                    let crlf = p > 0 && p < body.len() && body[p - 1] == b'\r' && body[p] == b'\n';
+                    left_ok && right_ok && !crlf
+                })
+                .collect();
+            if cands.is_empty() {
+                break;
+            }
+            let p = *rng.pick(&cands);
+            let (seq, label) = *rng.pick(INVALID);
+            let tail: Vec<u8> = body.split_off(p);
+            body.extend_from_slice(seq);
+            body.extend_from_slice(&tail);
+            labels.push(label);
+            // exercise splits before / inside / after the invalid sequence
+            for q in p..=p + seq.len() {
+                if rng.chance(1, 2) {
+                    must.push(q);
+                }
+            }
+        }
+        must.truncate(cfg.tier.pick(6, 16));
+    }
+    let chunkings = plan_chunkings(&mut rng, &body, quick, &must);
+    let deadline = Instant::now() + Duration::from_secs_f64((cfg.budget_s - r.elapsed()).max(1.0));
+    match e.run_body(&body, &chunkings, deadline) {
+        Ok((outs, log)) => {
+            let info = BodyInfo { case: idx, body: &body, what: "generated body", inject_labels: labels.clone() };
+            let multi = judge_body(r, e, &info, &outs, &log);
+            account_body(e, multi);
+            r.count(&format!("B_bodies_{}", if labels.is_empty() { "valid_utf8" } else { "with_invalid_utf8" }), 1);
+            for l in &labels {
+                r.count(&format!("B_injected_{l}"), 1);
+            }
+            if r.samples.len() < r.max_samples && outs.len() > 3 && multi {
+                let parts: Vec<Value> = outs.iter().take(6).map(|o| json!({"planned": o.label, "observed_chunks": clipv(&o.observed), "n_observed": o.observed.len()})).collect();
+                r.sample(json!({"phase": "B", "case": idx, "body_bytes": body.len(), "injected": labels,
+                                "body": clip(&String::from_utf8_lossy(&body)),
+                                "runs": outs.len(), "frames_per_run": outs[0].frames.len(), "partitions": parts}));
+            }
+        }
+        Err(why) => r.inconclusive(&format!("(B) case {idx}: {why}")),
+    }
+}
+
+// =============================================================================================
+// (D) directed reproductions of the two predicted chunking-dependence defects
+
+fn directed_case(cfg: &Cfg, r: &mut Report, e: &mut E2e, d: u64) {
+    let delta_event = |delta_bytes: &[u8]| -> Vec<u8> {
+        let mut b = b"event: response.output_text.delta\ndata: {\"type\":\"response.output_text.delta\",\"sequence_number\":1,\"item_id\":\"msg_1\",\"output_index\":0,\"content_index\":0,\"delta\":\"".to_vec();
+        b.extend_from_slice(delta_bytes);
+        b.extend_from_slice(b"\",\"logprobs\":[]}\n\n");
+        b
+    };
+    let (body, must, what): (Vec<u8>, Vec<usize>, &str) = match d {
+        0 => {
+            // F13: "a" E2 82 "b" — a 3-byte sequence cut short by an ASCII byte
+            let mut body = delta_event(b"a\xE2\x82b");
+            body.extend_from_slice(b"data: [DONE]\n\n");
+            let p = body.windows(2).position(|w| w == [0xE2, 0x82]).unwrap_or(1);
+            (body, vec![p, p + 1, p + 2], "directed F13: truncated 3-byte sequence followed by ASCII inside a text delta")
+        }
+        _ => {
+            // F14: a complete event after the terminal marker
+            let mut body = delta_event(b"before");
+            body.extend_from_slice(b"data: [DONE]\n\n");
+            let p = body.len();
+            body.extend_from_slice(&delta_event(b"AFTER"));
+            (body, vec![p, p - 1, p + 10], "directed F14: one more event after `data: [DONE]`")
+        }
+    };
+    let mut chunkings = vec![Chunking { label: "whole", sizes: vec![], pause_us: 0 }];
+    for &p in &must {
+        chunkings.push(Chunking::from_cuts("single_split", body.len(), &[p], 3000));
+    }
+    let _ = cfg;
+    let deadline = Instant::now() + Duration::from_secs(30);
+    // the network may coalesce: retry a few times until two partitions were really observed
+    for attempt in 0..3 {
+        match e.run_body(&body, &chunkings, deadline) {
+            Ok((outs, log)) => {
+                let info = BodyInfo { case: d, body: &body, what, inject_labels: vec![] };
+                let multi = judge_body(r, e, &info, &outs, &log);
+                if multi || attempt == 2 {
+                    account_body(e, multi);
+                    r.count("D_directed_cases_run", 1);
+                    if !multi {
+                        r.inconclusive(&format!("directed case {d}: chunkings were coalesced by the network in 3 attempts"));
+                    }
+                    break;
+                }
+            }
+            Err(why) => {
+                r.inconclusive(&format!("directed case {d}: {why}"));
+                break;
+            }
+        }
+    }
 }
